@@ -2065,6 +2065,9 @@ func (sa *Application) RemoveAllAllocations() []*Allocation {
 	// the user tracker is nonexistent. We don't want to decrease resource usage in this case.
 	if ugm.GetUserManager().GetUserTracker(sa.user.User) != nil && resources.IsZero(sa.pending) {
 		sa.decUserResourceUsage(resources.Add(sa.allocatedResource, sa.allocatedPlaceholder), true)
+	} else if ugm.GetUserManager().GetUserTracker(sa.user.User) != nil && !resources.IsZero(resources.Add(sa.allocatedResource, sa.allocatedPlaceholder)) {
+		// outstanding asks keep the application tracked, but what it had allocated is gone: give the usage back
+		sa.decUserResourceUsage(resources.Add(sa.allocatedResource, sa.allocatedPlaceholder), false)
 	}
 	// cleanup allocated resource for app (placeholders and normal)
 	sa.allocatedResource = resources.NewResource()
